@@ -1,0 +1,9 @@
+//go:build verif
+
+package verifier
+
+// Test-only export for the external verification harness (build tag "verif"): the verifier circuit
+// exactly as CompileVerifierCircuit builds it.
+func VerifNewVerifierCircuit(circuitPath string) VerifierCircuit {
+	return newVerifierCircuit(circuitPath)
+}
